@@ -258,6 +258,11 @@ SPECS["C03"].assumptions = SPECS["C03"].assumptions + [
 SPECS["C08"].thorough_extra = SPECS["C08"].thorough_extra + [
     ("auditproc", AUDITPROC_OVERLAY, ["-mode", "cancelfull", "-n", "4"], False, ["-mode", "cancelfull", "-n", "1"])]
 SPECS["C08"].assumptions = SPECS["C08"].assumptions + [
+    "binary scenarios, the audit side failing while the sshd side hands logins over (harness/workers/c08_handoff.go): a login the correlator rejects, an unparsable audit line, "
+    "audit-pipe end-of-stream and the events sink breaking under a stream of session events, each injected while accepted logins of all four forms arrive on the sshd pipe - in ONE "
+    "write with / right before the fault (burst: 360 lines, no waiting in between) or from a writer that keeps the pipe full (flood: fault 20-60 ms after events flow; racy, twice per "
+    "round, a replay repeats up to 12 times) - so that an sshd worker is in the hand-off, or enters it from lines already in its read buffer, when nobody receives logins any more; the "
+    "daemon must exit non-zero within 5 s",
     "binary scenarios: every processor-local failure cause (audit-side write failure after the login was recorded, invalid login) also under sustained "
     "audit load whose writer keeps writing after the fault; package-level stage (auditproc -mode cancelfull): Auditd.Read returns within 2 s of "
     "cancellation / invalid login / write failure while 2-3 producers keep its Audits channel (capacity 0, 1, 64, 10000) non-empty",
